@@ -58,6 +58,16 @@ def _run_variant(args):
                     stream.write(_ast.unparse(_ast.parse(src)) + "\n")
             keys, errors = _keys(prop, tmp)
             return (v.name, "ran", ";".join(errors), keys)
+        if v.module == "*rename":   # every renamable local variable of every function gets a meaningless name
+            import glob as _glob
+            from .refactor import rename_locals
+            for path in _glob.glob(os.path.join(tmp, "pyrefact", "*.py")):
+                with open(path, encoding="utf-8") as stream:
+                    src = stream.read()
+                with open(path, "w", encoding="utf-8") as stream:
+                    stream.write(rename_locals(src))
+            keys, errors = _keys(prop, tmp)
+            return (v.name, "ran", ";".join(errors), keys)
         for module, old, new in [(v.module, v.old, v.new)] + list(v.extra or []):
             path = os.path.join(tmp, "pyrefact", module + ".py")
             with open(path, encoding="utf-8") as stream:
@@ -86,6 +96,7 @@ def run(prop: str, seed: int = 0, only: Optional[str] = None, verbose: bool = Fa
     mod = importlib.import_module(f"sa.props.{prop.lower()}")
     variants: List[Variant] = list(getattr(mod, "VARIANTS", []))
     variants.append(Variant("unparse-round-trip-of-every-module", "SILENT", "*", "", ""))
+    variants.append(Variant("every-local-variable-renamed", "SILENT", "*rename", "", ""))
     if only:
         variants = [v for v in variants if only in v.name]
     random.Random(seed).shuffle(variants)
@@ -129,7 +140,7 @@ def run(prop: str, seed: int = 0, only: Optional[str] = None, verbose: bool = Fa
                 summary["failed"] += 1
                 verdict = f"FAILED: not reported; new keys {new[:3]}"
         else:
-            if v.module == "*" and gone:
+            if v.module in ("*", "*rename") and gone:
                 failures.append(f"round trip changed the verdicts: findings no longer reported {gone[:3]}")
                 summary["failed"] += 1
                 verdict = f"FAILED: verdicts changed {gone[:3]}"
